@@ -283,7 +283,13 @@ func child(mode string, in json.RawMessage) any {
 			return presult{Inconcl: "cache-dir-error"}
 		}
 		var ev int
-		o, cleanup := options(pt, cache, &ev)
+		ptP := pt
+		if pc.Prog&2 != 0 {
+			// the process that fills the directory uses OTHER non-semantic settings than the process that reads it
+			// (listener presence is part of the entry's identity, so it is kept)
+			ptP.NoDebug, ptP.Custom, ptP.CapMax, ptP.CloseCtx = !pt.NoDebug, !pt.Custom, !pt.CapMax, pt.CloseCtx
+		}
+		o, cleanup := options(ptP, cache, &ev)
 		s := wrun.NewSession(o, feats)
 		runOn(s, p, script)
 		s.Close()
@@ -411,6 +417,12 @@ func decorate(p *wgen.Program, seed int64) {
 			payload = r.Bytes(1 + r.Intn(4))
 		default:
 			payload = r.Bytes(5 + r.Intn(60))
+		}
+		if r.Chance(1, 3) {
+			// a well-formed, empty DWARF compilation-unit header: debug/dwarf accepts it, so the module "has debug
+			// information" (trap paths then consult source offsets) although nothing maps to a line
+			name = ".debug_info"
+			payload = []byte{7, 0, 0, 0, 4, 0, 0, 0, 0, 0, 4}
 		}
 		body := append(wenc.U32(nil, uint32(len(name))), name...)
 		body = append(body, payload...)
